@@ -56,6 +56,9 @@ pub fn try_answer_left_neighbor<Node>(
         return;
     };
 
+    #[cfg(feature = "verif")]
+    crate::verif::sched_point("extend_range_answer");
+
     let request = match pending_request.take() {
         Some(r) => r,
         None => match left_neighbor.rx.try_recv() {
@@ -173,6 +176,9 @@ pub fn request_range_extension<Node>(
 
     let (tx, rx) = crossbeam_channel::unbounded();
     let request = ExtendRangeRequest { tx };
+
+    #[cfg(feature = "verif")]
+    crate::verif::sched_point("extend_range_request");
 
     // UNWRAP: right neighbor never drops until left neighbor is done.
     right_neighbor.tx.send(request).unwrap();
